@@ -273,6 +273,10 @@ func New(opts ...RunnerOption) (*Runner, error) {
 		readDirHandler: DefaultReadDirHandler2(),
 		statHandler:    DefaultStatHandler(),
 		accessHandler:  DefaultAccessHandler(),
+
+		// Options such as Params("-o") may print before StdIO is applied.
+		stdout: io.Discard,
+		stderr: io.Discard,
 	}
 	r.dirStack = r.dirBootstrap[:0]
 	// turn "on" the default Bash options
